@@ -1059,6 +1059,7 @@ func (p *Parser) parseAnyClass(expr bool) (classDecl *ClassDecl) {
 		return
 	}
 	parent := p.enterScope(&classDecl.Scope, false)
+	var privates map[*Var]uint8 // the kinds of class elements that declare a private name
 	for {
 		if p.tt == ErrorToken {
 			p.fail("class declaration")
@@ -1071,7 +1072,35 @@ func (p *Parser) parseAnyClass(expr bool) (classDecl *ClassDecl) {
 			break
 		}
 
-		classDecl.List = append(classDecl.List, p.parseClassElement())
+		elem := p.parseClassElement()
+		classDecl.List = append(classDecl.List, elem)
+
+		// a private name can only be declared twice for a getter and a setter that are both static or both not
+		var private *Var
+		kind := uint8(4)
+		if elem.Method != nil {
+			private = elem.Method.Name.Private
+			if elem.Method.Get {
+				kind = 1
+			} else if elem.Method.Set {
+				kind = 2
+			}
+			if elem.Method.Static {
+				kind <<= 3
+			}
+		} else if elem.StaticBlock == nil {
+			private = elem.Field.Name.Private
+		}
+		if private != nil {
+			if privates == nil {
+				privates = map[*Var]uint8{}
+			}
+			if prev := privates[private]; prev != 0 && prev|kind != 1|2 && prev|kind != (1|2)<<3 || prev&kind != 0 {
+				p.failMessage("identifier %s has already been declared", string(private.Data))
+				return
+			}
+			privates[private] |= kind
+		}
 	}
 	p.exitScope(parent)
 	return
